@@ -105,6 +105,22 @@ func (e *Exec) execVec(c *Cmd, sl *slots) (string, bool, bool) {
 			// inside a `par` block: every other goroutine asks for a filtering handle
 			filt = e.vecGoroutineParity(sl)
 		}
+		if ef, ok := c.KV["engfail"]; ok {
+			// the engine fails while the index is being loaded for this caller
+			parts := strings.SplitN(ef, ":", 2)
+			n, _ := strconv.Atoi(parts[1])
+			e.vecArmFault(parts[0], n)
+			h, err := vs.InterpretVectorIndex(c.Pos[2], filt, ex)
+			fired := e.vecFired(parts[0], n)
+			faiss.VerifClearFaults()
+			if err != nil {
+				return fmt.Sprintf("%s fired=%s", errKind(err), b01(fired)), true, true
+			}
+			e.mu.Lock()
+			e.vec.handles[c.Pos[0]] = h
+			e.mu.Unlock()
+			return fmt.Sprintf("ok fired=%s", b01(fired)), true, true
+		}
 		h, err := vs.InterpretVectorIndex(c.Pos[2], filt, ex)
 		if err != nil {
 			return errKind(err), true, true
